@@ -48,6 +48,13 @@ SPEC = {
     'the Bernoulli mask of Dropout is an uninterpreted function of (key, keep probability, mask shape)',
     'dtype promotion is compared as a dtype string only (float32 in, float32 out)',
     'CPython iterates a set of small non-negative ints in increasing order (_canonicalize_axes; ranks < 8)',
+    'A-CONV is checked, not assumed blindly: when a conv-family output differs from the direct-sum reference the lax primitive is '
+    're-run directly with the arguments flax passes; if lax itself disagrees the case is recorded under a_conv_assumption_failed '
+    'and is not a verdict. Observation (jax 0.11.2 / XLA:CPU): lax.conv_general_dilated with a NEGATIVE explicit pad combined with '
+    'feature_group_count > 1 returns wrong (even non-integer, run-dependent) values, e.g. x[2,7,4], k[4,2,2], stride 3, '
+    'padding [(-1,3)], groups 2; negative pads stay in the generator (they are legal). XLA can also abort the worker process inside '
+    'Compile() on such inputs: the worker is restarted after the case, which is listed under xla_process_abort (at most 3 per worker, '
+    'otherwise exit 2); neither is ever reported as a violation',
   ],
   'model_partial': [
     'pad_index_maps (circular_conv_formula, reflect_conv_formula, causal_conv_formula, equivariance, causality, output lengths) are '
@@ -513,6 +520,74 @@ def _tup(v):
   return tuple(v) if isinstance(v, list) else v
 
 
+
+def _differs(r, oracle):
+  return not same_exact(r, oracle)
+
+
+def lax_direct_conv(c, x, k, mask, local):
+  """The lax primitive flax is documented to call for Conv / ConvLocal, run directly (batch flattened, numpy pre-padding for
+  CIRCULAR / REFLECT / CAUSAL, the same strides / dilations / groups / padding), compared with the direct-sum reference without
+  bias.  Returns True when lax itself meets the reference on this input, False when assumption A-CONV fails here."""
+  J = jx()
+  np, jnp, lax = J['np'], J['jnp'], J['jax'].lax
+  ks = list(c['kernel_size'])
+  nsp = len(ks)
+  strides = bcast(c.get('strides', 1), nsp)
+  ld = bcast(c.get('input_dilation', 1), nsp)
+  rd = bcast(c.get('kernel_dilation', 1), nsp)
+  pad = canon_padding(c['padding'], nsp)
+  nb = x.ndim - (nsp + 1)
+  xf = x.reshape((prod(x.shape[:nb]),) + x.shape[nb:])
+  kk = k * mask if mask is not None else k
+  want = np_conv(dict(c, padding=c['padding']), xf, k, None, mask, local)
+  if pad in ('CIRCULAR', 'REFLECT'):
+    pads = [(0, 0)] + [((dilated_k(ks[j], rd[j]) - 1) // 2, dilated_k(ks[j], rd[j]) // 2) for j in range(nsp)] + [(0, 0)]
+    xf = np.pad(xf, pads, mode={'CIRCULAR': 'wrap', 'REFLECT': 'reflect'}[pad])
+    pad = 'VALID'
+  elif pad == 'CAUSAL':
+    xf = np.pad(xf, [(0, 0), (rd[0] * (ks[0] - 1), 0), (0, 0)])
+    pad = 'VALID'
+  nd = xf.ndim
+  dn = lax.ConvDimensionNumbers((0, nd - 1) + tuple(range(1, nd - 1)), (nd - 1, nd - 2) + tuple(range(0, nd - 2)), (0, nd - 1) + tuple(range(1, nd - 1)))
+  lp = pad if isinstance(pad, str) else [tuple(p) for p in pad]
+  if local:
+    got = lax.conv_general_dilated_local(lhs=jnp.asarray(xf), rhs=jnp.asarray(kk), window_strides=strides, padding=lp, filter_shape=ks,
+                                         lhs_dilation=ld, rhs_dilation=rd, dimension_numbers=dn)
+  else:
+    got = lax.conv_general_dilated(jnp.asarray(xf), jnp.asarray(kk), strides, lp, lhs_dilation=ld, rhs_dilation=rd, dimension_numbers=dn,
+                                   feature_group_count=c.get('groups', 1))
+  got = np.asarray(got, dtype=np.float64)
+  return got.shape == want.shape and bool(np.array_equal(got, want))
+
+
+def lax_direct_conv_transpose(c, x, k, mask):
+  J = jx()
+  np, jnp, lax = J['np'], J['jnp'], J['jax'].lax
+  ks = list(c['kernel_size'])
+  nsp = len(ks)
+  nb = x.ndim - (nsp + 1)
+  xf = x.reshape((prod(x.shape[:nb]),) + x.shape[nb:])
+  kk = k * mask if mask is not None else k
+  pad = canon_padding(c['padding'], nsp)
+  if pad == 'CIRCULAR':
+    pad = 'VALID'
+  want = np_conv_transpose(dict(c, padding=pad if isinstance(pad, str) else [list(p) for p in pad]), xf, k, None, mask)
+  lp = pad if isinstance(pad, str) else [tuple(p) for p in pad]
+  got = np.asarray(lax.conv_transpose(jnp.asarray(xf), jnp.asarray(kk), bcast(c.get('strides'), nsp), lp, rhs_dilation=bcast(c.get('kernel_dilation'), nsp),
+                                      transpose_kernel=c['transpose_kernel']), dtype=np.float64)
+  return got.shape == want.shape and bool(np.array_equal(got, want))
+
+
+def _lax_probe(res, fn):
+  """adds res['lax_ok'] when an implementation voice differs from the reference"""
+  o = res['oracle']
+  if o[0] == 'ok' and any(api in res and _differs(res[api], o) for api in ('linen', 'nnx')):
+    r = call(fn)
+    res['lax_ok'] = r[1] if r[0] == 'ok' else 'err:' + str(r[1])
+  return res
+
+
 def ev_conv(c):
   J = jx()
   nn, nnx, np = J['nn'], J['nnx'], J['np']
@@ -561,7 +636,7 @@ def ev_conv(c):
   res = {'linen': _out(linen), 'oracle': _out(oracle), 'lean': [['conv', req]]}
   if not local:
     res['nnx'] = _out(nx)
-  return res
+  return _lax_probe(res, lambda: lax_direct_conv(c, x, k, mask, local))
 
 
 def ev_conv_transpose(c):
@@ -592,7 +667,8 @@ def ev_conv_transpose(c):
     return np_conv_transpose(c, x, k, b, mask)
 
   req = {kk: c.get(kk) for kk in ('kernel_size', 'padding', 'x', 'k', 'bias', 'mask', 'strides', 'kernel_dilation', 'transpose_kernel')}
-  return {'linen': _out(linen), 'nnx': _out(nx), 'oracle': _out(oracle), 'lean': [['conv_transpose', req]]}
+  res = {'linen': _out(linen), 'nnx': _out(nx), 'oracle': _out(oracle), 'lean': [['conv_transpose', req]]}
+  return _lax_probe(res, lambda: lax_direct_conv_transpose(c, x, k, mask))
 
 
 def ev_embed(c):
@@ -1370,6 +1446,19 @@ def judge_exact(ctx, case, ev, lean):
   kind = case['kind'] + ('-local' if case.get('local') else '') + (('-' + case['op']) if case['kind'] == 'embed' else '')
   oracle = ev['oracle']
   bad = False
+  if ev.get('lax_ok') is False:
+    # the lax primitive itself, called directly with the arguments flax passes, does not meet the direct-sum reference on this
+    # input: assumption A-CONV fails here (JAX/XLA), not flax's plumbing.  Counted and listed, never a violation.
+    ctx.count('a_conv_assumption_failed', kind)
+    lst = ctx.extra.setdefault('a_conv_assumption_failed', [])
+    if len(lst) < 20:
+      lst.append({'config': _cfg(case), 'x_shape': case['x']['s'], 'k_shape': case['k']['s'],
+                  'impl': {api: _short(ev[api]) for api in ('linen', 'nnx') if api in ev}, 'reference': _short(oracle)})
+    m = lean[0]
+    if not same_exact([m[0], m[1]], oracle):
+      ctx.disagreements_checked += 1
+      ctx.violation(f'{kind}-model-mismatch', f'Lean model and direct-sum reference differ on {kind}: config={_cfg(case)}', _strip(case), concrete=False)
+    return
   for api in ('linen', 'nnx'):
     if api not in ev:
       continue
@@ -1686,12 +1775,31 @@ def run_workers(cases, nworkers):
   env['PYTHONPATH'] = VERIF + os.pathsep + env.get('PYTHONPATH', '')
 
   def one(chunk):
-    p = subprocess.run([sys.executable, '-c', 'from harness.props import c12; c12.worker_main()'], input=json.dumps(chunk),
-                       capture_output=True, text=True, cwd=VERIF, env=env)
-    lines = [ln for ln in p.stdout.splitlines() if ln.startswith('{')]
-    if p.returncode != 0 or len(lines) != len(chunk):
-      raise InfraError(f'C12 worker failed (rc={p.returncode}, {len(lines)}/{len(chunk)} results): {p.stderr[-600:]}')
-    return [json.loads(ln) for ln in lines]
+    """A worker that dies (XLA aborts the process on some inputs: a JAX/XLA failure, not an observation of flax) is restarted
+    after the case it died on; that case is returned as {'process_abort': rc}."""
+    out = []
+    rest = chunk
+    aborts = 0
+    while rest:
+      p = subprocess.run([sys.executable, '-c', 'from harness.props import c12; c12.worker_main()'], input=json.dumps(rest),
+                         capture_output=True, text=True, cwd=VERIF, env=env)
+      lines = [ln for ln in p.stdout.splitlines() if ln.startswith('{')]
+      got = []
+      for ln in lines:
+        try:
+          got.append(json.loads(ln))
+        except ValueError:
+          break
+      out += got
+      if len(got) == len(rest):
+        break
+      if p.returncode >= 0 or aborts >= 3:
+        raise InfraError(f'C12 worker failed (rc={p.returncode}, {len(got)}/{len(rest)} results): {p.stderr[-600:]}')
+      aborts += 1
+      tail = [ln for ln in p.stderr.splitlines() if ln.strip() and not ln.lstrip().startswith('@')][-3:]
+      out.append({'process_abort': p.returncode, 'stderr': ' | '.join(tail)[-300:]})
+      rest = rest[len(got) + 1 :]
+    return out
 
   with ThreadPoolExecutor(nworkers) as ex:
     parts = list(ex.map(one, chunks))
@@ -1704,6 +1812,13 @@ def run_workers(cases, nworkers):
 
 def judge_all(ctx, drv, cases, evs):
   reqs, spans = [], []
+  aborted = [(c, e) for c, e in zip(cases, evs) if 'process_abort' in e]
+  for c, e in aborted:
+    ctx.count('xla_process_abort', c['kind'])
+    ctx.extra.setdefault('xla_process_abort', []).append({'config': _cfg(c), 'x_shape': c.get('x', {}).get('s'), 'k_shape': c.get('k', {}).get('s'),
+                                                          'rc': e['process_abort'], 'stderr': e.get('stderr', '')})
+  keep = [(c, e) for c, e in zip(cases, evs) if 'process_abort' not in e]
+  cases, evs = [c for c, _ in keep], [e for _, e in keep]
   for case, ev in zip(cases, evs):
     if 'harness_error' in ev:
       raise InfraError(f'C12 evaluator crashed on {case["kind"]}: {ev["harness_error"]}\n{ev.get("tb", "")}')
